@@ -7,5 +7,7 @@ CONSTANTS
   Cols <- Cols3
   SfmAtomic = FALSE
   Rotate = TRUE
+  Tree = TRUE
+  TreeAtomic = TRUE
 INVARIANTS Durable NoInvent BsuImpliesReadable TypeOK
 CHECK_DEADLOCK FALSE
